@@ -14,7 +14,7 @@ Tightness of the tightened bounds is NOT asserted (floor/ceil/round of the divis
 import itertools
 
 from vf import build
-from vf.core import Part, Violation, call
+from vf.core import Part, Violation, call, digest
 from vf.props import polycommon as pc
 
 PROPERTY = "C12"
@@ -196,6 +196,75 @@ def check(case, ev):
     ev.case(case, nontrivial, cl)
 
 
+def check_redeclared(case, ev):
+    """History part (round 13): bounds are queried, then the column variables are re-declared - on a copy(), on a view and
+    in place on the queried object itself (same `variables` array, one entry assigned) - and every answer must describe
+    the box that is declared NOW. A memo of the bounds matrix that travels with copies or survives the assignment shows here."""
+    import numpy as np
+    sy = pc.materialize(case, ev)
+    if sy is None:
+        return
+    puan = build.mods()[0]
+    n = sy.ncols
+    h = int(digest(case), 16)
+    # new boxes: each column shifted/widened/narrowed by a digest-derived amount, kept inside the small range
+    newb = []
+    for j, (lo, hi) in enumerate(sy.bounds):
+        k = (h >> (3 * j)) % 5
+        nb = [(lo - 2, hi), (lo, hi + 2), (lo - 1, hi + 3), (lo, lo), (lo + 1, hi + 1)][k]
+        newb.append(nb if nb[0] <= nb[1] else (lo, hi))
+    if newb == list(sy.bounds):
+        newb[0] = (newb[0][0] - 1, newb[0][1] + 1)
+    rows = [(int(b_), [int(x) for x in a_]) for b_, a_ in sy.rows]
+
+    def ask(poly):
+        return {"cb": pc.as_list(call(poly.column_bounds, what="column_bounds"), "column_bounds()", (2, n)),
+                "rb": pc.as_list(call(poly.row_bounds, what="row_bounds"), "row_bounds()", (sy.nrows, 2)),
+                "nrc": pc.as_list(call(lambda: poly.n_row_combinations, what="n_row_combinations"), "n_row_combinations", (sy.nrows,)),
+                "tb": pc.as_list(call(poly.tighten_column_bounds, what="tighten_column_bounds"), "tighten_column_bounds()", (2, n))}
+
+    def judge(ans, bounds, how):
+        for j, (lo, hi) in enumerate(bounds):
+            if (ans["cb"][0][j], ans["cb"][1][j]) != (lo, hi):
+                raise Violation(f"{how}: column_bounds() column {j} is {(ans['cb'][0][j], ans['cb'][1][j])}, declared now {(lo, hi)} (before {sy.bounds[j]})")
+            if ans["tb"][0][j] < lo or ans["tb"][1][j] > hi:
+                raise Violation(f"{how}: tighten_column_bounds() widens column {j}: {(ans['tb'][0][j], ans['tb'][1][j])} vs declared now {(lo, hi)}; rows={rows}")
+        for i, (b_, a_) in enumerate(rows):
+            want = (pc.row_min(a_, bounds) - b_, pc.row_max(a_, bounds) - b_)
+            if tuple(ans["rb"][i]) != want:
+                raise Violation(f"{how}: row_bounds() row {i} is {tuple(ans['rb'][i])}, exact range over the box declared now {want}; row={rows[i]} bounds now {bounds} before {sy.bounds}")
+            cnt = pc.prod(bounds[j][1] - bounds[j][0] + 1 for j, c in enumerate(a_) if c)
+            if ans["nrc"][i] != cnt:
+                raise Violation(f"{how}: n_row_combinations row {i} is {ans['nrc'][i]}, direct count {cnt} over the box declared now")
+        if pc.prod(hi - lo + 1 for lo, hi in bounds) <= COUNT_GUARD:
+            for x in itertools.product(*[range(lo, hi + 1) for lo, hi in bounds]):
+                if all(sum(a * v for a, v in zip(a_, x)) >= b_ for b_, a_ in rows):
+                    for j in range(n):
+                        if not (ans["tb"][0][j] <= x[j] <= ans["tb"][1][j]):
+                            raise Violation(f"{how}: tighten_column_bounds() cuts off the in-bounds integer solution {list(x)}: column {j} "
+                                            f"tightened to {(ans['tb'][0][j], ans['tb'][1][j])}; rows={rows} bounds now {bounds} before {sy.bounds}")
+
+    poly = sy.poly
+    judge(ask(poly), list(sy.bounds), "fresh polyhedron")
+    mk = lambda: np.array([poly.variables[0]] + [puan.variable(i, b) for i, b in zip(sy.col_ids, newb)], dtype=object)
+    kinds = ["copy", "view", "inplace"]
+    q = call(poly.copy, what="copy()")
+    q.variables = mk() if isinstance(poly.variables, np.ndarray) else list(mk())
+    judge(ask(q), newb, "copy() of a queried polyhedron with re-declared variables")
+    v = poly[:]
+    v.variables = mk() if isinstance(poly.variables, np.ndarray) else list(mk())
+    judge(ask(v), newb, "view of a queried polyhedron with re-declared variables")
+    judge(ask(poly), list(sy.bounds), "the original after its copy/view were re-declared")
+    # in place: one entry after the other of the SAME variables container
+    mixed = list(sy.bounds)
+    for j in range(n):
+        poly.variables[1 + j] = puan.variable(sy.col_ids[j], newb[j])
+        mixed[j] = newb[j]
+        if j in (0, n - 1):
+            judge(ask(poly), list(mixed), f"queried polyhedron after assigning variables[{1 + j}] in place")
+    ev.case(case, True, ["redeclared"] + kinds)
+
+
 def check_sparse(case, ev):
     """large sparse systems with pairwise disjoint rows (>= 1000 matrix entries): exact per-column ranges row by row"""
     poly = call(build.polyhedron, case, what="constructing the polyhedron")
@@ -234,6 +303,8 @@ def parts(tier):
         Part("many_columns", strategy=lambda t: pc.many_columns_case(), check=check, quick=(1, 60), thorough=(2, 800)),
         Part("chains", strategy=lambda t: pc.chain_case(guard=g), check=check, quick=(1, 400), thorough=(2, 5000)),
         Part("sparse_large", strategy=lambda t: pc.sparse_block_case(), check=check_sparse, quick=(2, 120), thorough=(4, 1500)),
+        Part("redeclared", strategy=lambda t: pc.system_case(profile="small", nonunit=True, guard=g), check=check_redeclared,
+             quick=(1, 300), thorough=(2, 4000)),
         Part("small", strategy=lambda t: pc.system_case(profile="small", nonunit=True, guard=g), check=check,
              quick=(3, 1500), thorough=(6, 12000)),
         Part("wide", strategy=lambda t: pc.system_case(profile="wide", nonunit=True, guard=g), check=check,
